@@ -717,6 +717,14 @@ with SqlImpl.impl_store.impl_manager as impl:
     def _pos(x):
         return x
 
+    @impl(ops.neg)
+    def _neg(x):
+        # Literals are rendered inline. A `-` directly in front of a negative one
+        # would start a comment (`--1`).
+        if isinstance(x, sqa.sql.elements.BindParameter):
+            return -sqa.sql.elements.Grouping(x)
+        return -x
+
     @impl(ops.abs)
     def _abs(x):
         return sqa.func.ABS(x, type_=x.type)
